@@ -1205,8 +1205,14 @@ fn results_array_from_scalars(scalars: &[ScalarValue], num_rows: usize) -> Resul
         return Ok(Arc::new(arrow::array::NullArray::new(num_rows)));
     }
 
-    // All scalars should have the same type
-    match &scalars[0] {
+    // All non-NULL scalars have the same type; a NULL carries none, so the
+    // first row's value may not decide (a NULL there used to turn the whole
+    // batch into a NullArray).
+    let typed = scalars
+        .iter()
+        .find(|s| !matches!(s, ScalarValue::Null))
+        .unwrap_or(&scalars[0]);
+    match typed {
         ScalarValue::Int64(_) => {
             use arrow::array::Int64Array;
             let values: Vec<Option<i64>> = scalars
